@@ -111,7 +111,11 @@ def oracle(run):
     neg = [("Intro\n\n## Stew for 2\n", (None, None)), ("## Stew for 2\n\n# Soup for 3\n", (None, None)), ("# *Stew* for 2\n", (None, None)),
            ("# Stew 2\n", ("Stew 2", None)), ("# Stew for two\n", ("Stew for two", None)), ("# Stew for 2\n\n# Soup for 3\n", ("Stew", 2)),
            ("para\n\n# Stew for 2\n", ("Stew", 2)), ("Stew for 2\n==========\n", ("Stew", 2)), ("# Stew before 2\n", ("Stew before 2", None)),
-           ("# Food &amp; drink for 2\n", ("Food & drink", 2)), ("# Serves 2\n", ("Serves 2", None))]
+           ("# Food &amp; drink for 2\n", ("Food & drink", 2)), ("# Serves 2\n", ("Serves 2", None)),
+           ("# *Fancy* soup\n\n# Stew for 6\n", (None, None)), ("# Soup with {2} eggs\n\n# Stew for 6\n", (None, None)),
+           ("# <b>x</b>\n\ntext\n\n# Stew for 6\n", (None, None)), ("# `code` pie\n\n# Pie for 3\n", (None, None)),
+           ("# Plum Preserves 2\n", ("Plum Preserves 2", None)), ("# Remakes 3\n", ("Remakes 3", None)), ("# Uniform 4\n", ("Uniform 4", None)),
+           ("# Pie, serves 4\n", ("Pie,", 4))]
     for doc, (t, n) in neg:
         mr = M.compile_markdown(doc)
         run.case(("negative", doc), True, kind="negative")
